@@ -12,7 +12,7 @@ CHECKS = {
     "C10": (
         "exploration",
         "property-based testing (Hypothesis): generated messages x file flavours; round-trip against an independent normal form, write/flush call-log oracle, binary/text differential",
-        "Generated-input search: every generated message (JSON-native corners, documented rich types, custom json_default) is written through FileDestination to six file flavours behind a recording proxy; the exact write/flush sequence, line validity, decoded content and cross-mode equality are checked against an independent model. Holds on everything generated, not a proof.",
+        "Generated-input search: every generated message (JSON-native corners, documented rich types, custom json_default) is written through FileDestination to ten file flavours (real files, in-memory, codecs writers, spooled files; optionally one flush that would block) behind a recording proxy; the exact write/flush sequence, line validity, decoded content and cross-mode equality are checked against an independent model. Holds on everything generated, not a proof.",
         "Trusts CPython json.loads as reader and the harness's normal-form function; NumPy/Pandas/Polars not installable here; two third-party encoder defects are open known findings (F8, F9).",
         "DESIGN.md section 3 C10",
     ),
@@ -60,21 +60,21 @@ CHECKS = {
     ),
     "C08": (
         "fault_enumeration",
-        "property-based testing / fault injection (Hypothesis): destination sets x failure masks x programs; per-destination offered sequences compared with a reference model of the statement (one report per failure, in registration order, none for reports)",
+        "property-based testing / fault injection (Hypothesis): destination sets x failure masks x programs; per-destination offered sequences compared with a reference model of the statement (one report per failure, in registration order, none for reports); concurrent fan-out under harness-owned schedules (source-line and bytecode granularity)",
         "Generated sets of 1-4 recording destinations with generated failure masks and exception classes (incl. equal classes, late registration) under generated programs; every destination's offered sequence and every report is checked against a model of the property statement. Holds on everything generated.",
-        "Destinations raise Exception subclasses only and do not mutate messages. Concurrent fan-out is covered by the handover/concurrent facets of C12/C13.",
+        "Destinations raise Exception subclasses only and do not mutate messages. Concurrent registration (add racing add/remove) is outside the quantifier.",
         "DESIGN.md section 3 C08",
     ),
     "C12": (
         "exploration",
-        "stateful property-based testing (Hypothesis RuleBasedStateMachine + operation-list strategy) against a reference model of buffering/registration/global fields; harness-owned line-level thread schedules (generated and enumerated) for the hand-over race",
-        "Histories of log / add / remove / add_global_fields (incl. >1000 buffered) are executed against a fresh Destinations and a reference model, compared after every step; the hand-over from buffering is additionally run under generated and enumerated line-level interleavings of logging threads against the first add. Holds on everything explored.",
+        "stateful property-based testing (Hypothesis RuleBasedStateMachine + operation-list strategy) against a reference model of buffering/registration/global fields; harness-owned thread schedules at source-line and bytecode-instruction granularity (generated and enumerated) for the hand-over race",
+        "Histories of log / add / remove / add_global_fields (incl. >1000 buffered) are executed against a fresh Destinations and a reference model, compared after every step (incl. equal-but-distinct destination objects on one sink); the hand-over from buffering is additionally run under generated and enumerated interleavings (source-line and bytecode-instruction granularity) of logging threads against the first add. Holds on everything explored.",
         "Under concurrency only loss/duplication is asserted. The scheduler assumes pausing at line events does not change the traced code's result.",
         "DESIGN.md section 3 C12",
     ),
     "C13": (
         "fault_enumeration",
-        "property-based testing / fault injection (Hypothesis): typed emissions with counting non-idempotent serializers x fault masks (raising serializers, omitted fields); exactly-once, non-mutation and report-placement oracles",
+        "property-based testing / fault injection (Hypothesis): typed emissions with counting non-idempotent serializers x fault masks (raising serializers, omitted fields); exactly-once, non-mutation and report-placement oracles; concurrent facets under harness-owned schedules (source-line and bytecode granularity) incl. one type first used by racing threads",
         "Generated scenarios of typed messages/actions (start, success, failure, stand-alone, direct Logger.write) with counting wrappers around non-idempotent serializers and generated fault masks; delivered values, call counts, caller data, and the number and placement of traceback + serialization_failure reports are checked per emission. Holds on everything generated.",
         "Serializers are pure and raise Exception subclasses; exactly-once is asserted on the Logger -> destinations path only.",
         "DESIGN.md section 3 C13",
@@ -88,15 +88,15 @@ CHECKS = {
     ),
     "C05": (
         "exploration",
-        "schedule exploration (Hypothesis-generated programs x plans): real threads parked at logging-call boundaries and real asyncio tasks parked at await points by a harness-owned scheduler; identity oracle on current_action() per worker, metamorphic equality of the parsed forest across schedules, model equality",
+        "schedule exploration (Hypothesis-generated programs x plans): real threads parked at logging-call boundaries (and, in half of the cases, at the moment a destination is handed a message) and real asyncio tasks parked at await points by a harness-owned scheduler; identity oracle on current_action() per worker, metamorphic equality of the parsed forest across schedules, model equality",
         "Structured concurrent programs (threads started bare / via preserve_context / via continue_task; asyncio tasks with nested gather, shared contexts, handed-over action objects) are each executed under several generated schedules; every worker's current_action() must be its own stack top at every step and across every park/resume, and the reconstructed forest must equal the model and be identical for all schedules. Holds on every schedule explored.",
-        "Interleavings finer than logging-call boundaries / await points are outside the property's quantifier. Sibling order among concurrent workers is not compared.",
+        "Interleavings finer than logging-call boundaries / destination calls / await points are outside the property's quantifier. Sibling order among concurrent workers is not compared.",
         "DESIGN.md section 3 C05",
     ),
     "C06": (
         "exploration",
-        "property-based testing (Hypothesis): programs with hand-offs (inline, thread, forked process with its own log file) x merge permutations, model equality of the parsed merged log; line-level schedule exploration (generated + enumerated single-preemption plans) of concurrent calls of one preserve_context callable; sequential call histories",
-        "Generated programs hand work to other threads/processes at arbitrary depths (multi-hop, many ids), the sides' logs are merged in a generated order and must parse to the model forest; the single-use guarantee of preserve_context is explored under harness-owned interleavings of 2-3 threads at source-line granularity in eliot/_action.py. Holds on everything explored.",
+        "property-based testing (Hypothesis): programs with hand-offs (inline, thread, forked process with its own log file) x merge permutations, model equality of the parsed merged log; schedule exploration at source-line and bytecode-instruction granularity (generated + enumerated single-preemption plans) of concurrent calls of one preserve_context callable; sequential call histories with arbitrary keyword arguments",
+        "Generated programs hand work to other threads/processes at arbitrary depths (multi-hop, many ids), the sides' logs are merged in a generated order and must parse to the model forest; the single-use guarantee of preserve_context is explored under harness-owned interleavings of 2-3 threads at source-line and bytecode granularity in eliot/_action.py. Holds on everything explored.",
         "Ids used twice or never are outside the quantifier. Scheduler assumption as for C16.",
         "DESIGN.md section 3 C06",
     ),
@@ -137,14 +137,14 @@ CHECKS = {
     ),
     "C19": (
         "fault_enumeration",
-        "property-based testing over schedules and fault masks (Hypothesis): real producer/writer threads around a gated destination that fixes how much is written when stop is requested; exact sequence, thread-identity and stop-completion oracles",
+        "property-based testing over schedules and fault masks (Hypothesis): real producer/writer threads around a gated destination that fixes how much is written when stop is requested, plus the reader thread, producers and stopService run as workers of a harness-owned scheduler over eliot/logwriter.py at source-line and bytecode-instruction granularity (generated plans + enumerated preemptions); exact sequence, thread-identity and stop-completion oracles",
         "Generated start/stop cycles, producer mixes, destination failure masks and gate positions drive a real ThreadedWriter; the wrapped destination must see exactly the offered sequence on one foreign thread, producers must not wait for output, and stopService's result must complete exactly after the queued tail is written. Holds on everything generated.",
         "Uses small stand-ins for twisted.application.service.Service and twisted.internet.threads.deferToThreadPool (Twisted not installable).",
         "DESIGN.md section 3 C19",
     ),
     "C20": (
         "exploration",
-        "property-based testing (Hypothesis): generated messages parsed back from compact_format/pretty_format by an independent reader; generated input streams through eliot-prettyprint's _main against an independent line classifier; eliot.filter against a table of expressions with Python models",
+        "property-based testing (Hypothesis): generated messages parsed back from compact_format/pretty_format by an independent reader; generated input streams through eliot-prettyprint's _main against an independent line classifier; eliot.filter against a table of expressions with Python models; coverage-guided fuzzing (atheris/libFuzzer, in-process, seeded corpus + dictionary) of the CLI with the same line-by-line oracle",
         "Generated messages (arbitrary field names/values incl. multi-line text and unicode line separators) must be rendered completely and in the documented order; mixed streams of Eliot lines, arbitrary bytes and non-object JSON must be processed line by line without aborting; filter output must equal the expression's value per line. Holds on everything generated.",
         "Required fields with wrong types are outside the property's list; -l only checked for not crashing.",
         "DESIGN.md section 3 C20",
